@@ -234,6 +234,38 @@ fn main() {
 """
 
 
+def ref_ord_program():
+    """an order given to the reference types only (soa_attr(Ref, derive(.. Ord))) is all that the natural-order `sort()` of a
+    mutable slice asks for, also through a #[nested_soa] field: it compares elements through their `Ref`s"""
+    return """#![allow(dead_code)]
+use soa_derive::StructOfArray;
+#[derive(StructOfArray, Clone, Debug, PartialEq, Eq, PartialOrd, Ord)]
+#[soa_attr(Ref, derive(Debug, PartialEq, Eq, PartialOrd, Ord))]
+pub struct In { pub k: u8, pub l: u8 }
+#[derive(StructOfArray, Clone, Debug, PartialEq, Eq, PartialOrd, Ord)]
+#[soa_attr(Ref, derive(Debug, PartialEq, Eq, PartialOrd, Ord))]
+pub struct Out { pub a: u8, #[nested_soa] pub n: In, pub z: u8 }
+#[derive(StructOfArray, Clone, Debug, PartialEq, Eq, PartialOrd, Ord)]
+#[soa_attr(Ref, derive(Debug, PartialEq, Eq, PartialOrd, Ord))]
+pub struct Flat { pub a: u8, pub z: u8 }
+fn main() {
+    let data: Vec<Out> = (0u8..24).map(|i| Out { a: (i * 7) % 3, n: In { k: (i * 5) % 2, l: (i * 11) % 4 }, z: 23 - i }).collect();
+    let mut v = OutVec::new();
+    for e in &data { v.push(e.clone()); }
+    v.as_mut_slice().sort();
+    let mut w = data.clone(); w.sort();
+    let got: Vec<Out> = v.iter().map(|r| Out { a: *r.a, n: In { k: *r.n.k, l: *r.n.l }, z: *r.z }).collect();
+    if got != w { println!("FAIL ref-ord nested sort differs from Vec<T>::sort"); }
+    let mut ns = v.n.as_mut_slice(); ns.sort();
+    let mut f = FlatVec::new(); f.push(Flat { a: 2, z: 1 }); f.push(Flat { a: 1, z: 9 });
+    f.as_mut_slice().sort();
+    if *f.index(0).a != 1 { println!("FAIL ref-ord flat sort"); }
+    if !(f.index(0) < f.index(1)) { println!("FAIL ref-ord Ref comparison"); }
+    println!("DONE ref-ord");
+}
+"""
+
+
 def cases(tier, seed):
     rng = random.Random(seed)
     subsets = all_closed_subsets()
